@@ -507,6 +507,41 @@ struct Gen
   }
 
   // ---- concat
+  int concat_with(int a, int b, bool global)
+  {
+    const int d = next++;
+    Stmt s;
+    s.op   = global ? "concat_global" : "concat_local";
+    s.regs = {d, a, b};
+    const double t1 = tmax_of(a);
+    std::vector<double> k = kn[a];
+    for (double e : kn[b]) k.push_back(t1 + e);
+    kn[d] = k;
+    push(s);
+    probe("size", d);
+    probe("t_max", d);
+    probe("start", d);
+    probe("end", d);
+    probe("t_max", a);
+    probe("end", a);
+    probe("start", a);
+    probe("start", b);
+    probe("end", b);
+    for (double t : times_of(d, 2)) {
+      probe_t("eval", d, t);
+      probe_t("eval", a, t);
+      probe_t("eval", b, t - t1);
+    }
+    // times chosen in the local frame of b
+    for (double sb : times_of(b, 1)) {
+      const double t = t1 + sb;
+      probe_t("eval", d, t);
+      probe_t("eval", a, t);
+      probe_t("eval", b, t - t1);
+    }
+    return d;
+  }
+
   bool concat()
   {
     int a = pick_reg();
@@ -528,35 +563,7 @@ struct Gen
       b = pick_reg();
     }
     if (kn[a].size() + kn[b].size() > 8) return false;
-    const int d = next++;
-    Stmt s;
-    s.op   = global ? "concat_global" : "concat_local";
-    s.regs = {d, a, b};
-    const double t1 = tmax_of(a);
-    std::vector<double> k = kn[a];
-    for (double e : kn[b]) k.push_back(t1 + e);
-    kn[d] = k;
-    push(s);
-    probe("size", d);
-    probe("t_max", d);
-    probe("start", d);
-    probe("end", d);
-    probe("t_max", a);
-    probe("end", a);
-    probe("start", b);
-    probe("end", b);
-    for (double t : times_of(d, 2)) {
-      probe_t("eval", d, t);
-      probe_t("eval", a, t);
-      probe_t("eval", b, t - t1);
-    }
-    // times chosen in the local frame of b
-    for (double sb : times_of(b, 1)) {
-      const double t = t1 + sb;
-      probe_t("eval", d, t);
-      probe_t("eval", a, t);
-      probe_t("eval", b, t - t1);
-    }
+    concat_with(a, b, global);
     return true;
   }
 
@@ -618,6 +625,12 @@ struct Gen
       if (c < 90 && tb == ta) tb = tmax_of(a);
     }
     const bool loc = r.below(10) < 7;
+    crop_op(a, ta, tb, loc);
+    return true;
+  }
+
+  int crop_op(int a, double ta, double tb, bool loc)
+  {
     const int d    = next++;
     Stmt s;
     s.op   = "crop";
@@ -646,12 +659,13 @@ struct Gen
       probe_t("eval", d, t);
       probe_t("eval", a, tac + t);
     }
-    return true;
+    return d;
   }
 
-  void make_local()
+  void make_local() { make_local_of(pick_reg()); }
+
+  int make_local_of(int a)
   {
-    int a       = pick_reg();
     const int d = next++;
     Stmt s;
     s.op   = "make_local";
@@ -661,9 +675,81 @@ struct Gen
     probe("start", d);
     probe("end", d);
     probe("start", a);
-    for (double t : times_of(d, 1)) {
+    probe("end", a);
+    probe("size", d);
+    probe("t_max", d);
+    for (double t : times_of(d, 2)) {
       probe_t("eval", d, t);
       probe_t("eval", a, t);
+    }
+    return d;
+  }
+
+  // ---- chain mode: every operation is applied to the result of the previous one (histories of depth >= 3
+  // mixing crop / concat_local / concat_global / make_local / crop-of-crop)
+  double inside(int a, int j, double lo, double hi)
+  {
+    const auto & k = kn[a];
+    const double s = j == 0 ? 0.0 : k[j - 1];
+    return s + (k[j] - s) * r.uni(lo, hi);
+  }
+
+  int chain_crop(int cur)
+  {
+    const auto & k = kn[cur];
+    const int n    = int(k.size());
+    if (n == 0) return crop_op(cur, 0.0, INFINITY, true);
+    int j = n >= 2 ? r.below((n + 1) / 2) : 0;          // segment of ta: first half
+    int q = n >= 2 ? std::max(j + (r.below(4) ? 1 : 0), n / 2 + r.below(n - n / 2)) : 0;  // segment of tb: second half
+    if (q >= n) q = n - 1;
+    double ta, tb;
+    int ca = r.below(10), cb = r.below(10);
+    if (ca < 6) ta = (j == q) ? inside(cur, j, 0.08, 0.42) : inside(cur, j, 0.1, 0.9);
+    else if (ca < 8) ta = j == 0 ? 0.0 : k[j - 1];      // exactly on a knot (or 0)
+    else ta = 0.0;
+    if (cb < 6) tb = (j == q) ? inside(cur, q, 0.58, 0.92) : inside(cur, q, 0.1, 0.9);
+    else if (cb < 8) tb = k[q];                          // exactly on a knot
+    else tb = INFINITY;
+    if (!(tb > ta)) tb = INFINITY;
+    return crop_op(cur, ta, tb, r.below(10) < 7);
+  }
+
+  void generate_chain()
+  {
+    int cur   = base();
+    int nseg  = 2 + r.below(3);
+    for (int i = 1; i < nseg; ++i) {
+      const G e = smooth::Identity<G>();
+      int b     = base(&e);
+      cur       = concat_with(cur, b, false);
+    }
+    int depth = 3 + r.below(4);
+    for (int i = 0; i < depth; ++i) {
+      int c = r.below(100);
+      if (c < 45 || kn[cur].size() >= 7) {
+        cur = chain_crop(cur);
+      } else if (c < 65) {
+        const G e = r.below(5) ? smooth::Identity<G>() : element();
+        int b     = base(&e);
+        cur       = concat_with(cur, b, false);
+      } else if (c < 80) {
+        const G e = r.below(5) ? m.R(cur).end() : element();
+        int b     = base(&e);
+        cur       = concat_with(cur, b, true);
+      } else if (c < 88) {
+        int b = base();                                   // the chain continues as the RIGHT operand
+        if (kn[b].size() + kn[cur].size() <= 8) cur = concat_with(b, cur, r.below(3) == 0);
+      } else {
+        cur = make_local_of(cur);
+      }
+    }
+    probe("size", cur);
+    probe("t_max", cur);
+    probe("start", cur);
+    probe("end", cur);
+    for (double t : times_of(cur, 2)) {
+      probe_t("eval", cur, t);
+      if constexpr (K == 3) probe_t("arclength", cur, t);
     }
   }
 
@@ -685,6 +771,10 @@ struct Gen
 
   void generate()
   {
+    if (r.below(100) < 55) {
+      generate_chain();
+      return;
+    }
     int nbase = 1 + r.below(3);
     for (int i = 0; i < nbase; ++i) base();
     int nops = r.below(8);
